@@ -335,19 +335,29 @@ def sigD7 (o : Obs) : Bool :=
   | some fm => !isActionMapping fm && fm.to.any isActionKey
   | none => false
 
-/-- C08 over one observed transition with the pending obligations; returns the violation tags -/
+/-- H1: in every mapping all output keys before the last are modifiers -/
+def layoutH1 (L : Layout) : Bool := L.all fun m => m.to.dropLast.all fun y => !isActionKey y
+
+/-- H2: every mapping with a non-empty absorbing list is key-producing -/
+def layoutH2 (L : Layout) : Bool := L.all fun m => m.absorbing.isEmpty || isActionMapping m
+
+/-- C08 over one observed transition with the pending obligations; returns the violation tags.
+The known-finding signatures D6 / D7 are only looked at for layouts outside H1 ∧ H2: inside, C08 is a
+theorem of the model (`C08_partial`), so any violation there is a new one. -/
 def monC08 (o : Obs) (obls : List Obl) : List String :=
   match o.e with
   | Event.released _ => []
   | Event.pressed k =>
     if !o.accepted then []
     else
+      let outside := !(layoutH1 o.L && layoutH2 o.L)
       (obls.filter fun ob => ob.M != k).flatMap fun ob =>
         if ob.t != k then
-          (if c08i o ob then [] else [if sigD6 o ob then "C08:D6" else "C08:i"]) ++
-          (if c08ii o ob then [] else [if sigD6 o ob then "C08:D6" else if sigD7 o then "C08:D7" else "C08:ii"])
+          (if c08i o ob then [] else [if outside && sigD6 o ob then "C08:D6" else "C08:i"]) ++
+          (if c08ii o ob then [] else
+            [if outside && sigD6 o ob then "C08:D6" else if outside && sigD7 o then "C08:D7" else "C08:ii"])
         else if ob.fresh && sameSet o.P' ob.held then
-          (if c08iii o ob then [] else [if sigD6 o ob then "C08:D6" else "C08:iii"])
+          (if c08iii o ob then [] else [if outside && sigD6 o ob then "C08:D6" else "C08:iii"])
         else []
 
 /-- all step monitors; returns the ids of the violated ones -/
